@@ -161,4 +161,125 @@ theorem sends_eq (sty : Style) (items : List Outbound) :
     simp only [sends, List.filterMap_cons] at *
     cases ser sty it <;> simp [ih]
 
+/-! ### two writers -/
+
+theorem interleaving_left_nil {α : Type} (a : List α) : Interleaving a [] a := by
+  induction a with
+  | nil => exact .nil
+  | cons x xs ih => exact .left x ih
+
+theorem interleaving_right_nil {α : Type} (b : List α) : Interleaving [] b b := by
+  induction b with
+  | nil => exact .nil
+  | cons x xs ih => exact .right x ih
+
+theorem interleaving_append {α : Type} (a b : List α) : Interleaving a b (a ++ b) := by
+  induction a with
+  | nil => exact interleaving_right_nil b
+  | cons x xs ih => exact .left x ih
+
+/-- every schedule yields an interleaving … -/
+theorem mergeAll_interleaving {α : Type} (s : List Bool) (a b : List α) :
+    Interleaving a b (mergeAll s a b) := by
+  fun_induction mergeAll s a b with
+  | case1 _ b => exact interleaving_right_nil b
+  | case2 _ a _ => exact interleaving_left_nil a
+  | case3 a b _ _ => exact interleaving_append a b
+  | case4 s x a b _ ih => exact .left x ih
+  | case5 s a y b _ ih => exact .right y ih
+
+theorem interleaving_mem {α : Type} {a b m : List α} (h : Interleaving a b m) (x : α) (hx : x ∈ m) :
+    x ∈ a ∨ x ∈ b := by
+  induction h with
+  | nil => simp at hx
+  | left y _ ih =>
+    simp only [List.mem_cons] at hx ⊢
+    rcases hx with hx | hx
+    · exact Or.inl (Or.inl hx)
+    · rcases ih hx with h | h
+      · exact Or.inl (Or.inr h)
+      · exact Or.inr h
+  | right y _ ih =>
+    simp only [List.mem_cons] at hx ⊢
+    rcases hx with hx | hx
+    · exact Or.inr (Or.inl hx)
+    · rcases ih hx with h | h
+      · exact Or.inl h
+      · exact Or.inr (Or.inr h)
+
+/-- both writers' orders survive: each is a subsequence of the interleaving -/
+theorem interleaving_sublist_left {α : Type} {a b m : List α} (h : Interleaving a b m) : a.Sublist m := by
+  induction h with
+  | nil => exact List.Sublist.slnil
+  | left x _ ih => exact ih.cons_cons x
+  | right y _ ih => exact ih.cons y
+
+theorem interleaving_sublist_right {α : Type} {a b m : List α} (h : Interleaving a b m) : b.Sublist m := by
+  induction h with
+  | nil => exact List.Sublist.slnil
+  | left x _ ih => exact ih.cons x
+  | right y _ ih => exact ih.cons_cons y
+
+theorem interleaving_length {α : Type} {a b m : List α} (h : Interleaving a b m) :
+    m.length = a.length + b.length := by
+  induction h with
+  | nil => rfl
+  | left x _ ih => simp [ih]; omega
+  | right y _ ih => simp [ih]; omega
+
+theorem interleaving_map {α β : Type} (f : α → β) {a b m : List α} (h : Interleaving a b m) :
+    Interleaving (a.map f) (b.map f) (m.map f) := by
+  induction h with
+  | nil => exact .nil
+  | left x _ ih => exact .left (f x) ih
+  | right y _ ih => exact .right (f y) ih
+
+/-- an interleaving of two mapped lists is the map of an interleaving -/
+theorem interleaving_map_inv {α β : Type} (f : α → β) (m : List β) :
+    ∀ (a b : List α), Interleaving (a.map f) (b.map f) m →
+      ∃ ls, Interleaving a b ls ∧ m = ls.map f := by
+  induction m with
+  | nil =>
+    intro a b h
+    have := interleaving_length h
+    simp only [List.length_nil, List.length_map] at this
+    have ha : a = [] := List.eq_nil_of_length_eq_zero (by omega)
+    have hb : b = [] := List.eq_nil_of_length_eq_zero (by omega)
+    subst ha hb
+    exact ⟨[], .nil, rfl⟩
+  | cons z m ih =>
+    intro a b h
+    generalize ha : a.map f = A at h
+    generalize hb : b.map f = B at h
+    cases h with
+    | left x h' =>
+      cases a with
+      | nil => simp at ha
+      | cons a0 at' =>
+        simp only [List.map_cons, List.cons.injEq] at ha
+        obtain ⟨h0, hat⟩ := ha
+        subst hb
+        rw [← hat] at h'
+        obtain ⟨ls, hl, hm⟩ := ih at' b h'
+        exact ⟨a0 :: ls, .left a0 hl, by simp [hm, h0]⟩
+    | right y h' =>
+      cases b with
+      | nil => simp at hb
+      | cons b0 bt =>
+        simp only [List.map_cons, List.cons.injEq] at hb
+        obtain ⟨h0, hbt⟩ := hb
+        subst ha
+        rw [← hbt] at h'
+        obtain ⟨ls, hl, hm⟩ := ih a bt h'
+        exact ⟨b0 :: ls, .right b0 hl, by simp [hm, h0]⟩
+
+theorem rejectionSends_eq (sty : Style) (rejs : List Json) :
+    rejectionSends sty rejs = (rejs.map (enc sty)).map (fun l => encode (l ++ [LF])) := by
+  unfold rejectionSends
+  rw [sends_eq]
+  congr 1
+  induction rejs with
+  | nil => rfl
+  | cons r rs ih => simp [List.filterMap_cons, ser, ih]
+
 end Verif.Lemmas.StdioOut
